@@ -29,7 +29,7 @@ structure Env where
 /-- the provider while it serves that request: its JWT access-token verifier is what the REGENERATED
     `Provider.AccessTokenVerifier` builds for the request's issuer -/
 def provider (atp : ResATProvider) (e : Env) (s : St) : ResProvider :=
-  { decrypt := e.decrypt, tokenOf := e.tokenOf, jtiOf := e.jtiOf, store := s,
+  { decrypt := e.decrypt, tokenOf := e.tokenOf, jtiOf := e.jtiOf, store := s, ctxIssuer := e.issuer,
     verifier := GenRes.ProviderAccessTokenVerifier e.now e.issuer atp,
     clientStore := e.clientStore, postSupported := e.postSupported, pkjwtSupported := e.pkjwtSupported, jwtProfileVerifier := e.jwtProfileVerifier }
 
@@ -81,13 +81,13 @@ inductive RevokeResp | ok | refused
 def revoke (rt : Router) (atp : ResATProvider) (e : Env) (s : St) (caller : Option String) (hint tok : String) : St × RevokeResp :=
   match rt with
   | .provider =>
-    let w := GenRes.Revoke e.now ((callerR caller).map fun c => (tok, hint, c)) { store := s } (provider atp e s)
+    let w := GenRes.Revoke e.now ((callerR caller).map fun c => (tok, hint, c)) { store := s, ctxIssuer := e.issuer } (provider atp e s)
     (w.store, if w.out == [.json .empty] then .ok else .refused)
   | .legacy =>
     match caller with
     | none => (s, .refused)       -- `withClient`: the handler is not reached without an authenticated client
     | some c =>
-      match GenRes.LegacyRevocation e.now { store := s } ⟨provider atp e s⟩ { Data := { Token := tok, TokenTypeHint := hint }, Client := { id := c } } with
+      match GenRes.LegacyRevocation e.now { store := s, ctxIssuer := e.issuer } ⟨provider atp e s⟩ { Data := { Token := tok, TokenTypeHint := hint }, Client := { id := c } } with
       | (w, .ok _) => (w.store, .ok)
       | (w, .error _) => (w.store, .refused)
 
@@ -100,7 +100,7 @@ def introspectRequest (atp : ResATProvider) (e : Env) (s : St) (r : ResHttpReq) 
 /-- the Provider router's revocation endpoint on the whole request: the REGENERATED parser (who is asking, which token, which hint),
     then the handler -/
 def revokeRequest (atp : ResATProvider) (e : Env) (s : St) (r : ResHttpReq) : St × RevokeResp :=
-  let w := GenRes.Revoke e.now (GenRes.ParseTokenRevocationRequest e.now r (provider atp e s)) { store := s } (provider atp e s)
+  let w := GenRes.Revoke e.now (GenRes.ParseTokenRevocationRequest e.now r (provider atp e s)) { store := s, ctxIssuer := e.issuer } (provider atp e s)
   (w.store, if w.out == [.json .empty] then .ok else .refused)
 
 /-- is a subject / actor token acceptable for token exchange: `GetTokenIDAndSubjectFromToken` (its access-token arm is the
@@ -108,23 +108,23 @@ def revokeRequest (atp : ResATProvider) (e : Env) (s : St) (r : ResHttpReq) : St
     (an access token must still be live) -/
 def exchange (atp : ResATProvider) (e : Env) (s : St) (asRefresh : Bool) (tok : String) : Option Ref :=
   if asRefresh then
-    match s.TokenRequestByRefreshToken tok with
+    match s.TokenRequestByRefreshToken e.issuer tok with
     | .ok r => some (.rt r.token)
     | .error _ => none
   else
     match GenRes.getTokenIDAndClaims e.now (provider atp e s) tok with
-    | (id, _, _, true) => (s.liveTok id).map fun t => .at t.id
+    | (id, _, _, true) => (s.liveTok e.issuer id).map fun t => .at t.id
     | _ => none
 
 inductive Op
-  | issue (t : Tok) (r : Option RTok)        -- a token response: an access token, possibly with a refresh token
+  | issue (t : Tok) (r : Option RTok)        -- a token response: an access token, possibly with a refresh token (tagged with the issuer of the request)
   | expire (x : Ref)
   | userinfo (rt : Router) (e : Env) (tok : String)
   | introspect (rt : Router) (e : Env) (caller : Option String) (tok : String)
   | revoke (rt : Router) (e : Env) (caller : Option String) (hint tok : String)
-  | endSession (subject client : String)
+  | endSession (iss subject client : String)   -- `iss` = the issuer the logout request is addressed to
   | exchange (e : Env) (asRefresh : Bool) (tok : String)
-  | refresh (tok : String)                   -- the refresh grant by the owning client
+  | refresh (iss tok : String)               -- the refresh grant by the owning client, at issuer `iss`
 
 def freshIDs (s : St) (t : Tok) (r : Option RTok) : Bool :=
   !s.toks.any (·.id == t.id) && (match r with | some r => !s.rtoks.any (·.token == r.token) | none => true)
@@ -134,8 +134,8 @@ def step (atp : ResATProvider) (s : St) : Op → St × Option Ref
   | .issue t r =>
     -- token ids are unique in the storage (fresh counters): an id is never issued twice
     if freshIDs s t r then
-      ({ toks := s.toks ++ [{ t with expired := false, revoked := false, gone := false }],
-         rtoks := s.rtoks ++ (match r with | some r => [{ r with expired := false, gone := false }] | none => []) }, none)
+      ({ s with toks := s.toks ++ [{ t with expired := false, revoked := false, gone := false }],
+                rtoks := s.rtoks ++ (match r with | some r => [{ r with expired := false, gone := false }] | none => []) }, none)
     else (s, none)
   | .expire (.at id) => ({ s with toks := s.toks.map fun x => if x.id == id then { x with expired := true } else x }, none)
   | .expire (.rt tok) => ({ s with rtoks := s.rtoks.map fun x => if x.token == tok then { x with expired := true } else x }, none)
@@ -143,11 +143,11 @@ def step (atp : ResATProvider) (s : St) : Op → St × Option Ref
   | .introspect rt e c tok =>
     (s, match introspect rt atp e s c tok with | .answer r => if r.Active then some (.at r.tokenID) else none | .unauthorized => none)
   | .revoke rt e c hint tok => ((revoke rt atp e s c hint tok).1, none)
-  | .endSession sub cl => (s.TerminateSession sub cl, none)
+  | .endSession iss sub cl => (s.TerminateSession iss sub cl, none)
   | .exchange e asRefresh tok => (s, exchange atp e s asRefresh tok)
-  | .refresh tok =>
-    match s.TokenRequestByRefreshToken tok with
-    | .ok r => (s.rotate tok, some (.rt r.token))
+  | .refresh iss tok =>
+    match s.TokenRequestByRefreshToken iss tok with
+    | .ok r => (s.rotate iss tok, some (.rt r.token))
     | .error _ => (s, none)
 
 def run (atp : ResATProvider) (s : St) : List Op → St × List (Option Ref)
